@@ -35,7 +35,7 @@ func ProbeMain(setup func(e *core.Eng)) {
 		res := s.Exec(q)
 		switch {
 		case res.Panic != nil:
-			fmt.Printf("%s\n  => PANIC %s\n     sig %s\n", core.Clip(q, 300), res.Panic.Value, res.Panic.Sig())
+			fmt.Printf("%s\n  => PANIC %s\n     sig %s\n", core.Clip(q, 300), res.Panic.Value, PanicSig(res.Panic.Stack, res.Panic.Value, core.StripVolatile))
 			if os.Getenv("PROBE_STACK") != "" {
 				fmt.Println(res.Panic.Stack)
 			}
